@@ -95,9 +95,11 @@ Definition neutron_wavelength_from_velocity_E (v : Q) : expr := EDiv (cq VF) (cq
 
 Definition wl_expr (w : wl) : expr :=
   match w with WLam q => cq q | WEn e => neutron_wavelength_E e end.
-(* the square of the wavelength, exactly (all the piecewise decisions use it) *)
-Definition wl_sq (w : wl) : Q :=
-  match w with WLam q => Qred (q * q) | WEn e => Qred (EF / e) end.
+(* the energy (meV) that corresponds to the wavelength argument, exactly: E = EF/lambda^2
+   (all the piecewise decisions use it: for positive quantities
+    lambda < lambda_j = sqrt(EF/(1000 e_j))  <=>  1000 e_j < E) *)
+Definition wl_en (w : wl) : Q :=
+  match w with WLam q => (EF / (q * q))%Q | WEn e => e end.
 
 (* ------------------------------------------------------------------ table data *)
 Record ndata := mkND {
@@ -156,26 +158,28 @@ Definition rows_of (D : ndata) (z a : Z) : option (option (list erow)) :=
   end.
 
 (* abscissae of the table: neutron_wavelength(asarray(energy)*1000), energy in eV *)
-Definition node_sq (e : Q) : Q := Qred (EF / (e * 1000)).
 Definition node_expr (e : Q) : expr := ESqrt (EDiv (cq EF) (EMul (cq e) (ez 1000))).
+(* x < xp[j] and x <= xp[j], decided exactly on the energies *)
+Definition lt_node (en e : Q) : bool := Qlt_bool (e * 1000) en.
+Definition le_node (en e : Q) : bool := Qle_bool (e * 1000) en.
 
 (* numpy.interp(x, xp, fp): fp[0] left of the table, fp[-1] right of it, otherwise on the segment
    xp[j] <= x < xp[j+1]:  slope*(x - xp[j]) + fp[j],  slope = (fp[j+1]-fp[j])/(xp[j+1]-xp[j]) *)
 Inductive seg := SConst (re im : Q) | SLin (e0 e1 : Q) (re0 im0 re1 im1 : Q).
 
-Fixpoint locate_from (sq : Q) (e0 re0 im0 : Q) (rest : list erow) : seg :=
+Fixpoint locate_from (en : Q) (e0 re0 im0 : Q) (rest : list erow) : seg :=
   match rest with
   | [] => SConst re0 im0
   | (e1, re1, im1) :: r =>
-      if Qlt_bool sq (node_sq e1) then SLin e0 e1 re0 im0 re1 im1
-      else locate_from sq e1 re1 im1 r
+      if lt_node en e1 then SLin e0 e1 re0 im0 re1 im1
+      else locate_from en e1 re1 im1 r
   end.
 
-Definition locate (sq : Q) (rows : list erow) : option seg :=
+Definition locate (en : Q) (rows : list erow) : option seg :=
   match rows with
   | [] => None
   | (e0, re0, im0) :: r =>
-      Some (if Qle_bool sq (node_sq e0) then SConst re0 im0 else locate_from sq e0 re0 im0 r)
+      Some (if le_node en e0 then SConst re0 im0 else locate_from en e0 re0 im0 r)
   end.
 
 Definition lin (x x0 x1 : expr) (y0 y1 : Q) : expr :=
@@ -206,7 +210,7 @@ Definition scattering_by_wavelength (D : ndata) (z a : Z) (w : wl) : option (exp
       | _, _ => None
       end
   | Some rows =>
-      do s <- locate (wl_sq w) rows;
+      do s <- locate (wl_en w) rows;
       let re := seg_re (wl_expr w) s in
       let im := seg_im (wl_expr w) s in
       Some (re, im, EMul FOURPI_100 (cabs2 re im))          (* _4PI_100*abs(b_c)**2 *)
@@ -217,7 +221,8 @@ Record outs := mkO {
   o_re : expr; o_im : expr; o_inc : expr;       (* sld_re, sld_im, sld_inc *)
   o_coh : expr; o_abs : expr; o_ixs : expr;     (* coh_xs, abs_xs, inc_xs *)
   o_pen : expr;                                 (* penetration *)
-  o_N : expr; o_sigma_i : expr                  (* intermediates, kept for the comparison rules *)
+  (* intermediates and arguments, kept for the comparison rules *)
+  o_N : expr; o_sigma_i : expr; o_bre : expr; o_bim : expr; o_ss : expr; o_lam : expr
 }.
 
 (* numpy.maximum(x, 0.) *)
@@ -236,13 +241,13 @@ Definition calculate_scattering (N lam bre bim sigma_s : expr) : outs :=
   let abs_xs := EMul N sigma_a in
   let inc_xs := EMul N sigma_i in
   let penetration := EDiv (ez 1) (EAdd abs_xs total_xs) in
-  mkO sld_re sld_im sld_inc coh_xs abs_xs inc_xs penetration N sigma_i.
+  mkO sld_re sld_im sld_inc coh_xs abs_xs inc_xs penetration N sigma_i bre bim sigma_s lam.
 
 (* ------------------------------------------------------------------ neutron_scattering *)
 Inductive outcome :=
 | ONone                      (* (None, None, None) *)
 | OVacuum                    (* (0,0,0), (0,0,0), inf *)
-| OVals (v : list outs)      (* one per wavelength *)
+| OVals (v : list (outs * list compE))      (* one per wavelength (with the per-atom pieces) *)
 | ORaise (e : err).
 
 Definition has_data (D : ndata) (a : atom) : bool := has_sld (nd_rec D (az a) (aa a)).
@@ -254,12 +259,12 @@ Definition acc_sum (f : compE -> expr) (l : list compE) : expr :=
 Definition atom_piece (D : ndata) (w : wl) (p : atom * Q) : option compE :=
   let a := fst p in
   do t <- scattering_by_wavelength D (az a) (aa a) w;
-  Some (mkCE (snd p) (e_mass (nd_env D) a) (fst (fst t)) (snd (fst t)) (snd t)).
+  Some (mkCE (snd p) (Qred (e_mass (nd_env D) a)) (fst (fst t)) (snd (fst t)) (snd t)).
 
 Definition E24 : Q := inject_Z (10 ^ 24).
 
-Definition compound_at (D : ndata) (d : dict) (rho : Q) (w : wl) : option outs :=
-  do ps <- all_some (map (atom_piece D w) d);
+(* (number_density, wavelength, Re b_c, Im b_c, sigma_s) handed to _calculate_scattering *)
+Definition compound_parts (ps : list compE) (rho : Q) (lam : expr) : expr * expr * expr * expr * expr :=
   let molar_mass := acc_sum (fun c => EMul (cq (ce_m c)) (cq (ce_n c))) ps in
   let num_atoms := acc_sum (fun c => cq (ce_n c)) ps in
   let b_re := EDiv (acc_sum (fun c => EMul (cq (ce_n c)) (ce_re c)) ps) num_atoms in
@@ -267,16 +272,44 @@ Definition compound_at (D : ndata) (d : dict) (rho : Q) (w : wl) : option outs :
   let sigma_s := EDiv (acc_sum (fun c => EMul (cq (ce_n c)) (ce_ss c)) ps) num_atoms in
   let cell_volume := EMul (EDiv (EDiv molar_mass (cq rho)) (cq NAq)) (cq E24) in
   let number_density := EDiv num_atoms cell_volume in
-  Some (calculate_scattering number_density (wl_expr w) b_re b_im sigma_s).
+  (number_density, lam, b_re, b_im, sigma_s).
+
+Definition calc5 (t : expr * expr * expr * expr * expr) : outs :=
+  match t with (N, lam, bre, bim, ss) => calculate_scattering N lam bre bim ss end.
+
+(* the result at one wavelength, together with the per-atom pieces that entered the sums
+   (kept for the comparison rules) *)
+Definition compound_at (D : ndata) (d : dict) (rho : Q) (w : wl) : option (outs * list compE) :=
+  do ps <- all_some (map (atom_piece D w) d);
+  Some (calc5 (compound_parts ps rho (wl_expr w)), ps).
+
+(* compound.atoms and compound.density, as reduced fractions (same numbers, smaller terms) *)
+Definition atoms_of (s : struct) : dict := map (fun p => (fst p, Qred (snd p))) (count_atoms s).
+(* sum(w(el)*count), reduced at every step *)
+Definition rweight (w : atom -> Q) (d : dict) : Q :=
+  fold_left (fun acc p => Qred (acc + w (fst p) * snd p)) d 0%Q.
+(* Formula.__init__: natural_density wins, then density, then the density of a lone atom
+   (the same rule as Formula.init_density, on the reduced dict) *)
+Definition density_of_compound (D : ndata) (s : struct) (density natural_density : option Q) : option Q :=
+  let E := nd_env D in
+  let d := atoms_of s in
+  match natural_density with
+  | Some nd => Some (Qred (nd / (rweight (e_natmass E) d / rweight (e_mass E) d)))
+  | None =>
+      match density with
+      | Some r => Some r
+      | None => match d with [(a, _)] => e_density E a | _ => None end
+      end
+  end.
 
 Definition neutron_scattering (D : ndata) (s : struct) (density natural_density : option Q)
            (ws : list wl) : outcome :=
-  match init_density (nd_env D) s density natural_density with
+  match density_of_compound D s density natural_density with
   | None => ORaise AssertErr                               (* assert compound.density is not None *)
   | Some rho =>
-      let d := count_atoms s in
+      let d := atoms_of s in
       if negb (forallb (fun p => has_data D (fst p)) d) then ONone else
-      if Qeq_bool (dweight (e_mass (nd_env D)) d * rho) 0 then OVacuum else
+      if Qeq_bool (rweight (e_mass (nd_env D)) d * rho) 0 then OVacuum else
       match all_some (map (compound_at D d rho) ws) with
       | Some v => OVals v
       | None => ORaise TypeErr
@@ -286,10 +319,11 @@ Definition neutron_scattering (D : ndata) (s : struct) (density natural_density 
 (* ------------------------------------------------------------------ Neutron.scattering / .sld *)
 Definition E24m : Q := 1 # (10 ^ 24).
 
-Definition atom_at (D : ndata) (z a : Z) (nd : Q) (w : wl) : option outs :=
+Definition atom_at (D : ndata) (z a : Z) (nd : Q) (w : wl) : option (outs * list compE) :=
   do t <- scattering_by_wavelength D z a w;
   let number_density := EMul (cq nd) (cq E24m) in         (* self._number_density*1e-24 *)
-  Some (calculate_scattering number_density (wl_expr w) (fst (fst t)) (snd (fst t)) (snd t)).
+  Some (calculate_scattering number_density (wl_expr w) (fst (fst t)) (snd (fst t)) (snd t),
+        [mkCE 1 1 (fst (fst t)) (snd (fst t)) (snd t)]).
 
 Definition atom_scattering (D : ndata) (z a : Z) (ws : list wl) : outcome :=
   if negb (has_sld (nd_rec D z a)) then ONone else
